@@ -23,17 +23,22 @@ ExprPaths ==
   \cup {s \o <<NMethod(m)>> : s \in Subj, m \in Methods}
   \cup {s \o <<NDecimal0>> : s \in Subj} \cup {s \o <<NDecimal2(VInt(3), VInt(1))>> : s \in Subj}
   \cup {s \o <<NDecimal1(VInt(0))>> : s \in Subj}
+  \cup {s \o <<d>> : s \in {<<NRoot>>, <<NRoot, NAnyArr>>}, d \in {NDecimal2(VInt(3), VInt(1001)), NDecimal2(VInt(1001), VInt(0)), NDecimal2(VInt(3), VInt(-1001))}}
+  (* the non-suppressible argument errors of .decimal() where errors are otherwise suppressed *)
+  \cup {<<NRoot, NAnyArr, NFilter(NBin("gt", <<NCur, d>>, Lit(1)))>> : d \in {NDecimal1(VInt(0)), NDecimal2(VInt(3), VInt(1001)), NDecimal2(VInt(3), VInt(1))}}
   \cup {<<NRoot, NIdx(<<Sub1(s)>>)>> : s \in Subj}
   \cup {<<NUn(u, s), NMethod(m)>> : u \in {"minus"}, s \in {<<NRoot>>}, m \in {"ceiling", "string", "double"}}
 PredPaths ==
   {NBin(c, s, l) : c \in Cmps, s \in Subj, l \in LitsT} \cup {NBin(c, s, t) : c \in {"eq", "lt"}, s \in Subj, t \in Subj}
   \cup {NBin("starts", s, <<NStr(KA)>>) : s \in Subj} \cup {NRegex(s, KA, NoFlags) : s \in Subj}
+  \cup {NUn("exists", <<NRoot, NAnyArr, d>>) : d \in {NDecimal1(VInt(0)), NDecimal2(VInt(3), VInt(1001))}}
 PathRows == SetToSeq({[pred |-> FALSE, chain |-> p] : p \in ExprPaths} \cup {[pred |-> TRUE, chain |-> <<q>>] : q \in PredPaths})
 
 Vals == { VNull, VTrue, VFalse, VFlt(0), VFlt(1), VFlt(-1), VHalf(3), VHalf(-5), VStr(KA), VStr(<<49>>), VStr(<<>>),
           VArr(<<>>), VObj(<<>>) }
 DocSet == Vals \cup {VArr(<<v>>) : v \in Vals} \cup {VObj(<<[k |-> KA, v |-> v]>>) : v \in Vals}
           \cup {VArr(<<VFlt(1), v>>) : v \in Vals}
+          \cup {VArr(<<VArr(<<VHalf(3)>>)>>), VArr(<<VHalf(3), VArr(<<VHalf(5)>>)>>), VArr(<<VArr(<<VStr(<<49>>), VTrue>>)>>)}    \* nested arrays: one level of unwrapping only
 DocSeq == SetToSeq(DocSet)
 VarRow == [vars |-> <<[k |-> KX, v |-> VStr(KA)]>>]
 
